@@ -20,12 +20,31 @@ Definition strip_loc (tr : list action) : list action := filter (fun a => match 
 Definition prog_of (z : Z) : list stmt :=
   match z with 0%Z => fuse_worker | 1%Z => compare_worker | 2%Z => stats_window_worker | _ => stats_sums_worker end.
 
+(* lock skeleton: what remains after dropping dataset accesses and local steps.  An access may legitimately perform no dataset call
+   at all (an output window that does not intersect the dataset writes nothing), so the comparison is:
+     - the observed trace itself, viewed through the generated dataset -> lock map, obeys the lock discipline (every dataset call inside
+       the lock that guards that dataset, no nesting, everything released),
+     - its lock skeleton and outcome are those of some outcome of the generated program,
+     - it performs no dataset access the matching generated outcomes do not have. *)
+Definition skeleton (tr : list action) : list action :=
+  filter (fun a => match a with Acq _ | Rel _ => true | _ => false end) tr.
+Definition accesses (tr : list action) : list nat :=
+  flat_map (fun a => match a with Beg r => [r] | _ => [] end) tr.
+Fixpoint sublist (a b : list nat) : bool :=
+  match a, b with
+  | [], _ => true
+  | _ :: _, [] => false
+  | x :: a', y :: b' => if Nat.eqb x y then sublist a' b' else sublist a b'
+  end.
+
 (* [program id; failed flag; action codes ...] *)
 Definition check (l : list float) : bool :=
   match l with
   | pid :: failed :: codes =>
     let obs := map dec_action codes in
-    existsb (fun o : outc => list_eqb action_eqb (strip_loc (fst o)) obs && Bool.eqb (snd o) (f2z failed =? 1)%Z)
+    guarded [] None (map (relabel_action lock_class) obs) &&
+    existsb (fun o : outc => list_eqb action_eqb (skeleton (fst o)) (skeleton obs) && Bool.eqb (snd o) (f2z failed =? 1)%Z
+                             && sublist (accesses obs) (accesses (fst o)))
             (execs (prog_of (f2z pid)))
   | _ => false
   end.
